@@ -226,6 +226,10 @@ func (r *refTerm) scrollEvents() int { return r.viewMoves + r.bufScrolls }
 // Scroll as undefined (the interface makes the caller responsible for them) and
 // remembers the first call that would draw outside the grid.
 type gridCons struct {
+	// sizer, when set, answers Dimensions: the geometry a real console driver
+	// reports for the pixel size the case describes (the drawing calls still go
+	// to the cell grid below)
+	sizer     console.Device
 	w, h      uint32
 	cells     []ttyCell
 	undefined []bool
@@ -241,7 +245,12 @@ func newGridCons(w, h uint32) *gridCons {
 	return g
 }
 
-func (g *gridCons) Dimensions(console.Dimension) (uint32, uint32) { return g.w, g.h }
+func (g *gridCons) Dimensions(d console.Dimension) (uint32, uint32) {
+	if g.sizer != nil {
+		return g.sizer.Dimensions(d)
+	}
+	return g.w, g.h
+}
 func (g *gridCons) DefaultColors() (uint8, uint8)                 { return 7, 0 }
 func (g *gridCons) Palette() color.Palette                        { return nil }
 func (g *gridCons) SetPaletteColor(uint8, color.RGBA)             { g.touches++ }
@@ -366,6 +375,11 @@ func ttyValidCons(c ttyCons) error {
 		return nil
 	case "fb":
 		return nil // checked in detail by c18NewFb
+	case "fbsize":
+		if c.Font < 0 || c.Font >= len(ttyFontNames) || c.RemW > 7 || c.RemH > 15 || c.Pad > 256 {
+			return fmt.Errorf("fbsize console outside the generated domain")
+		}
+		return nil
 	}
 	return fmt.Errorf("unknown console kind %q", c.Kind)
 }
